@@ -1472,6 +1472,14 @@ FUNCS = [
          verbatim=[("let mut list = String::new();", "let mut list : List Char := []"),
                    ('for rel in dels { let _ = write!(list, "{}/{}\\0", remote_root, rel.display()); }',
                     "for rel in dels do\n  list := list ++ (remote_root ++ '/' :: rel ++ ['\\x00'])")]),
+    # ---- transfer.rs: the directory list a push hands to the remote `xargs -0 mkdir -p`
+    dict(group="oneway", file="src/bin/copia/transfer.rs", name="create_remote_dirs (the directory list)", fn="create_remote_dirs", sig=None,
+         slice=('let mut dir_list = format!("{remote_root}\\0");', 'dir.display()\n            );'), slice_close=2,
+         lean="def remoteDirListGen (remote_root : List Char) (dirs : List (List Char)) : List Char := Id.run do",
+         epilogue=["return dir_list"], calls={}, paths={},
+         verbatim=[('let mut dir_list = format!("{remote_root}\\0");', "let mut dir_list : List Char := remote_root ++ ['\\x00']"),
+                   ('for dir in dirs { if write!(dir_list, "{}/{}\\0", remote_root, dir.display()).is_err() { eprintln!( "Warning: failed to format directory path: {}", dir.display() ); } }',
+                    "for dir in dirs do\n  dir_list := dir_list ++ (remote_root ++ '/' :: dir ++ ['\\x00'])")]),
     # ---- incremental.rs: the orchestration of a local recursive run
     dict(group="oneway", file="src/bin/copia/incremental.rs", name="run_local", sig=None,
          lean="def runLocalGen {K C : Type} [DecidableEq K] (le : K → K → Bool) (excl : K → Bool) (delete_ dry_run : Bool)\n"
